@@ -3044,9 +3044,12 @@ package goatlang
 //@ -- whether a call is a builtin (len, append, delete, copy, panic, ...) is decided by its name
 //@ -- alone, never by what happens to be interned already: the callee name of a builtin call is
 //@ -- not compiled as an expression, in any declaration order
+//@ -- an integer literal token means what Go's literal syntax says (base prefixes, and the sign
+//@ -- negateNud folds into the text): strconv.ParseInt with base 0
 //@ func (*token).Int
-//@   property C16
-//@   trusted
+//@   property C16 C04
+//@   requires t != nil
+//@   ensures#goliteral result == int(fst(strconv.ParseInt(t.Text, 0, 0)))
 //@ func (*compiler).compile case "call"
 //@   property C16 C09
 //@   axioms TOKARR
